@@ -68,6 +68,8 @@ class Run:
         self.methods = methods or {}            # method name -> 'interp' | callable(run, call expr, arg values)
         self.ignore = ignore                    # callable(stmt) -> True: statement irrelevant to the tracked state, skipped
         self.externs = externs or {}            # name of an external (system) function -> callable(run, call expr, arg values)
+        self.recs = {}                          # name -> {field: value}: records reached through ('R', name) references
+        self.elem_size = {}                     # buffer name -> size in bytes of one element (byte-based sizes / offsets are scaled)
         self.objects = objects                  # True: local asl::String / asl::Array objects are modelled as bounds-checked buffers
         self.objlen = {}                        # var id -> element count of a modelled object (locals and registered parameters)
         self.boxed = {}                         # var id -> buffer name (locals whose address was taken)
@@ -144,6 +146,15 @@ class Run:
             return ('var', e['id'], T(self.f, e.get('dt') or e.get('t')))
         if k == 'mem' and _on_this(e):
             return ('mem', e['f'], T(self.f, e.get('t')))
+        if k == 'mem':
+            base = self.val(e['b'])
+            if isinstance(base, tuple) and base[0] == 'R':
+                return ('rec', base[1], e['f'], T(self.f, e.get('t')))
+            raise Unsupported('lvalue `%s`' % pe(e))
+        if k == 'call' and not (e.get('op') == '[]' and self.obj_of(e) is not None):
+            v = self.val(e)
+            if isinstance(v, tuple) and v[0] == 'R':
+                return ('recobj', v[1])
         if k == 'un' and e.get('op') == '*':
             return ('buf', self.val(e['e']), T(self.f, e.get('t')), e.get('l'))
         if k == 'idx':
@@ -324,6 +335,10 @@ class Run:
             if l[1] not in self.mems:
                 raise Unsupported('read of member %s' % l[1])
             return self.mems[l[1]]
+        if l[0] == 'rec':
+            return self.recs[l[1]][l[2]]
+        if l[0] == 'recobj':
+            return ('R', l[1])
         if l[0] == 'bufs':
             vals = [self.load(p_, l[3]) for p_ in l[1]]
             if all(isinstance(v_, int) for v_ in vals) and len(set(vals)) == 1:
@@ -345,6 +360,10 @@ class Run:
             self.vars[l[1]] = wrap(v, l[2])
         elif l[0] == 'mem':
             self.mems[l[1]] = wrap(v, l[2])
+        elif l[0] == 'rec':
+            self.recs[l[1]][l[2]] = wrap(v, l[3])
+        elif l[0] == 'recobj':
+            raise Unsupported('assignment of a whole record')
         else:
             self.store(l[1], wrap(v, l[2]), l[3])
 
@@ -428,6 +447,11 @@ class Run:
             raise Unsupported('variable %s' % e.get('n'))
         if k == 'mem' and not _on_this(e):
             base = self.val(e['b'])
+            if isinstance(base, tuple) and base[0] == 'R':
+                rec = self.recs[base[1]]
+                if e.get('f') not in rec:
+                    raise Unsupported('field %s of record %s' % (e.get('f'), base[1]))
+                return rec[e['f']]
             if isinstance(base, dict) and e.get('f') in base:
                 return base[e['f']]
             raise Unsupported('member `%s` of a value that is not a modelled record' % pe(e))
@@ -442,11 +466,18 @@ class Run:
         if k == 'un':
             op = e['op']
             if op == '*':
+                if strip(e['e']).get('k') == 'this':
+                    return ('THIS',)
+                pv = self.val(e['e']) if strip(e['e']).get('k') == 'var' else None
+                if isinstance(pv, tuple) and pv[0] == 'R':
+                    return pv
                 return self.get(self.lv(e))
             if op == '&':
                 l = self.lv(e['e'])
                 if l[0] == 'buf':
                     return l[1]
+                if l[0] == 'recobj':
+                    return ('R', l[1])
                 if l[0] == 'var':
                     if l[1] not in self.boxed:
                         name = ('V', l[1], id(self))
@@ -499,9 +530,16 @@ class Run:
             if op in ('==', '!=', '<', '>', '<=', '>='):
                 if isinstance(a, tuple) or isinstance(b, tuple):
                     if isinstance(a, tuple) and isinstance(b, tuple):
+                        if a[0] != 'P' or b[0] != 'P':
+                            if op in ('==', '!='):
+                                return int((a == b) == (op == '=='))
+                            raise Unsupported('ordering of references')
                         if a[1] != b[1]:
-                            raise Unsupported('comparison of pointers into different buffers')
-                        a, b = a[2], b[2]
+                            # distinct objects: ordered by a fixed virtual layout (each buffer has its own address range)
+                            names = sorted(self.bufs, key=repr)
+                            a, b = names.index(a[1]) * (1 << 24) + a[2], names.index(b[1]) * (1 << 24) + b[2]
+                        else:
+                            a, b = a[2], b[2]
                     else:
                         # pointer against null
                         a, b = (1 if isinstance(a, tuple) else a), (1 if isinstance(b, tuple) else b)
@@ -538,6 +576,17 @@ class Run:
 
     def arith(self, op, a, b, e):
         if isinstance(a, tuple) or isinstance(b, tuple):
+            pt, off = (a, b) if isinstance(a, tuple) else (b, a)
+            if isinstance(pt, tuple) and pt[0] == 'P' and isinstance(off, int) and pt[1] in self.elem_size and self.elem_size[pt[1]] > 1:
+                # a pointer into a buffer of multi-byte elements used as char* / void*: the offset is in bytes
+                px = e['x'] if isinstance(a, tuple) else e['y']
+                to = T(self.f, T(self.f, strip_lv(px).get('t')).get('to'))
+                if (to.get('bits') == 8 or to.get('s') in ('void', 'const void')) and not to.get('rec'):
+                    es = self.elem_size[pt[1]]
+                    if off % es:
+                        raise Unsupported('byte offset %d into a buffer of %d-byte elements' % (off, es))
+                    off //= es
+                    a, b = (pt, off) if isinstance(a, tuple) else (off, pt)
             if op == '+' and isinstance(a, tuple) and isinstance(b, int):
                 return ('P', a[1], a[2] + b)
             if op == '+' and isinstance(b, tuple) and isinstance(a, int):
@@ -576,6 +625,11 @@ class Run:
             n_ = self.val(e['a'][2])
             if not isinstance(dst, tuple) or dst[0] != 'P' or not isinstance(n_, int):
                 raise Unsupported('`%s`' % pe(e))
+            es = self.elem_size.get(dst[1], 1)
+            if es > 1:
+                if n_ % es:
+                    raise Unsupported('`%s`: %d bytes into a buffer of %d-byte elements' % (pe(e), n_, es))
+                n_ //= es
             if fn == 'memset':
                 v_ = self.val(e['a'][1])
                 for j in range(n_):
